@@ -788,9 +788,21 @@ def gen_store_case(r, maxlen, malformed, flavour):
                 op = (r.choice(["clear", "copy", "setitem"]), t)
                 if op[0] == "setitem":
                     op = ("setitem", t, v, ("i", 1))
+        # observe - mutate - observe: a view of the container (keys, items, values, a copy) taken right before and right after
+        # a mutation must each show the contents of that moment (anything a container remembers about an earlier view has
+        # to be forgotten by EVERY mutating method)
+        sandwich = op[0] not in READONLY and kind in ("M", "L", "S") and not bad and r.chance(1, 2)
+        view = None
+        if sandwich:
+            view = (r.choice(["keys", "mitems", "mvalues"]) if kind == "M" else r.choice(["copy", "len"]), t)
+            if not emit(view):
+                ops.pop()
         if not emit(op):
             # outside what the reference determines (incomparable sort, unmodelled target): drop the step
             ops.pop()
+        elif sandwich and view is not None and t < len(st) and st[t][0] == kind:
+            if not emit(view):
+                ops.pop()
     return ops, script_only
 
 
